@@ -23,6 +23,8 @@ Round 5: the prototype replaced by the class itself on a path chosen by == (fiel
 
 Round 6: (a') nobody rewrites a default after construction; flat copies of list defaults;
 Optional.pack decides on 'is None' (C08 pair rule).
+Round 7: includes the slot-flow rule and the pack-hook rule of C17 (a keyword for a described field
+needs its flag slot; a field left automatic is computed by its before-pack hook).
 """
 import ast
 
